@@ -28,7 +28,7 @@ MANIFEST = {
 
 def main(run, args):
     quick = run.tier == "quick"
-    per_fn = 12 if quick else 150
+    per_fn = 12 if quick else 60
     pl = vlib.proof_leg(ID, THEOREMS)
     for pr in pl["problems"]:
         vlib.log("proof-leg problem:", pr["kind"], pr["detail"][:400])
